@@ -266,6 +266,13 @@ def through_union_case(draw):
     return {"through_unions": True, "defs": defs, "root": "Root", "cfg": cfg, "data": bytes(data).hex(), "form": form, "fill": kind}
 
 
+def _real_type(v):
+    """Class of a structure value, looking through the proxy a union hands out for its structure members."""
+    while type(v).__name__ == "UnionProxy":
+        v = v.__target__
+    return type(v)
+
+
 def _ref_truth(p):
     """Truth of a canonical plain value by the rule of the statement: a structure / union is truthy iff one of its
     fields is; a field value has Python's truth (non-zero number, non-empty list / bytes / str)."""
@@ -325,6 +332,35 @@ def _run_through_unions(case, ctx):
             walk(f_["t"], getattr(x, nm), getattr(y, nm), f"{path}.{f_['name']}", 1 if inside else 0)
 
     walk(common.ROOT, a, b, "obj", 0)
+    # the same declaration under another name is another type: equal bytes / equal fields do not make its values equal
+    rootdef = [d for d in case["defs"] if d["n"] == "Root"][0]
+    r2 = lib(cs.load, libside.render_def(dict(rootdef, n="Root2")), compiled=case["cfg"]["compiled"], align=bool(case["cfg"]["align"]))
+    if isinstance(r2, Err):
+        raise Violation("definition-rejected", f"the same declaration under the name Root2: {r2}: {desc()}", r2.where)
+    o = lib(cs.Root2, data)
+    if isinstance(o, Err):
+        raise Violation("parse-raised", f"Root2 (same declaration as Root) {desc()} -> {o!r}", o.where)
+
+    def cross(t, x, y, path):
+        t = sem.res(t)
+        if t["k"] == "a":
+            if sem.res(t["t"])["k"] == "st" and isinstance(x, list) and x:
+                cross(t["t"], x[0], y[0], path + "[0]")
+            return
+        if t["k"] != "st":
+            return
+        if _real_type(x) is not _real_type(y):
+            e1, e2, ne = lib(lambda: x == y), lib(lambda: y == x), lib(lambda: x != y)
+            if e1 is not False or e2 is not False or ne is not True:
+                raise Violation("eq-across-types", f"{path}: a {_real_type(x).__name__} and a {_real_type(y).__name__} (same declaration, different types, same bytes): == {e1!r} / {e2!r}, != {ne!r}: {desc()}")
+            ctx.count("through-unions:cross-type-comparisons:" + t["kind"])
+        for i, f_ in enumerate(t["fields"]):
+            if f_.get("name") is None or f_["t"]["k"] not in ("st", "a"):
+                continue  # named types (ref) are shared between Root and Root2: the same type
+            nm = _real_type(x).__fields__[i]._name
+            cross(f_["t"], getattr(x, nm), getattr(y, nm), f"{path}.{f_['name']}")
+
+    cross(common.ROOT, a, o, "obj")
     ctx.count("through-unions:form:" + case["form"])
     ctx.count("through-unions:fill:" + case["fill"])
     ctx.count("through-unions:structure-values", stats["nodes"])
